@@ -524,6 +524,14 @@ func (e *Env) call(x SCall) TV {
 		argc(1)
 		a := e.eval(x.Args[0])
 		return TV{App(x.Fn, SInt, a.T), nil}
+	case "global":
+		// global("Name"): a package-level variable of a dependency (pointer/interface/integer valued)
+		argc(1)
+		s, ok := x.Args[0].(SStrL)
+		if !ok {
+			e.fail("global(\"Name\")")
+		}
+		return TV{e.heap(e.st, e.w.Heap("G$"+s.V, SInt)), nil}
 	case "typetag":
 		argc(1)
 		s, ok := x.Args[0].(SStrL)
